@@ -2,6 +2,7 @@ package main
 
 import (
 	"fmt"
+	"os"
 	"strings"
 	"sync/atomic"
 
@@ -685,6 +686,15 @@ func runScenario(sc *Scenario, r *zsimrt.Rand, replay []zsimrt.Decision) *Outcom
 			}
 		}
 	}
+	if lp := zsimrt.TakeLibPanic(); lp != "" {
+		// a goroutine started by the library panicked: a production process would have died, in a
+		// sequential run just the same. Nothing to compare; the run is not judged.
+		out.Probes["runs_not_judged_a_library_goroutine_panicked"]++
+		if debugLibPanic {
+			println("LIBPANIC:", lp)
+		}
+		first = nil
+	}
 	out.Viol = first
 	out.Digest = h
 	for t := range w.fired {
@@ -762,3 +772,5 @@ func runProbe(p *Probe) string {
 	res, _ := w.soloOp(0, 0)
 	return res
 }
+
+var debugLibPanic = os.Getenv("ZSIM_DEBUG") != ""
